@@ -516,6 +516,7 @@ class Gen:
             self.consts.update(consts)
             self.enums.update(enums)
         self.closures = {}
+        self.closure_env = {}     # capturing closures: key -> context they were written in
         self.instances = {}       # key -> index
         self.order = []           # (name, expr_text)
         self.bodies = {}
@@ -615,12 +616,53 @@ class Gen:
 
     # statements --------------------------------------------------------------
     def local(self, x, ctx, create=False):
+        x = ctx.get("prefix", "") + x        # locals of an inlined helper live in the caller's frame under a prefix
         if x in ctx["locals"]:
             return ctx["locals"].index(x)
         if create:
             ctx["locals"].append(x)
             return len(ctx["locals"]) - 1
         raise TranslateError("%s: unknown local %s" % (ctx["name"], x))
+
+    def is_local(self, x, ctx):
+        return (ctx.get("prefix", "") + x) in ctx["locals"]
+
+    @staticmethod
+    def _walk(t):
+        yield t
+        if isinstance(t, (tuple, list)):
+            for y in t:
+                for z in Gen._walk(y):
+                    yield z
+
+    def captures(self, closure_body, ctx):
+        """locals of the enclosing function that a closure body mentions"""
+        return sorted({n[1][0] for n in self._walk(closure_body)
+                       if isinstance(n, tuple) and len(n) >= 2 and n[0] == "path" and isinstance(n[1], list)
+                       and len(n[1]) == 1 and self.is_local(n[1][0], ctx)})
+
+    def inline_call(self, name, cargs, ctx, line):
+        """a private helper called with a closure that captures locals of the caller (e.g.
+        `comma_separated(p, |p| arg_value(p, &mut has_named_arg))`) cannot become a DSL function of its own (a DSL
+        function has its own frame): its body is inlined at the call site, its own locals renamed into the caller's
+        frame, the closure evaluated in the caller's context.  Refused if the helper contains `return` (it would leave
+        the caller) or has a run-time parameter."""
+        fn = self.fns[name]
+        if any(isinstance(n, tuple) and n and n[0] == "return" for n in self._walk(fn["body"])):
+            self.fail(ctx["fn"], line, "cannot inline helper %s (called with a capturing closure): it contains `return`" % name)
+        consts, ci = {}, 0
+        for (pname, pty) in fn["params"]:
+            if pty.replace(" ", "") in ("Checkpoint", "&mutbool"):
+                self.fail(ctx["fn"], line, "cannot inline helper %s: run-time parameter %s" % (name, pname))
+            if ci >= len(cargs):
+                raise TranslateError("fn %s: parameter %s has no constant argument" % (name, pname))
+            consts[pname] = cargs[ci]
+            ci += 1
+        self.ninline = getattr(self, "ninline", 0) + 1
+        ictx = {"fn": fn, "consts": consts, "locals": ctx["locals"], "name": ctx["name"] + "<inlined %s>" % name,
+                "prefix": "%s#%d#" % (name, self.ninline)}
+        body = self.block(fn["body"], ictx, tail=True)
+        return body
 
     def block(self, b, ctx, tail):
         """translate a block to an expr; value = last expression without ';' (else unit)"""
@@ -687,7 +729,7 @@ class Gen:
                 return "(EB true)"
             if p == ["CompletedMarker", "Fail"]:
                 return "(EB false)"
-            if len(p) == 1 and p[0] in ctx["locals"]:
+            if len(p) == 1 and self.is_local(p[0], ctx):
                 return "(EVar %d)" % self.local(p[0], ctx)
             self.fail(fn, e[2], "unsupported path expression %s" % "::".join(p))
         if k == "call":
@@ -712,7 +754,7 @@ class Gen:
                 return ("enum", p[1])
             if len(p) == 1 and p[0] in ctx["consts"]:
                 return ctx["consts"][p[0]]
-            if len(p) == 1 and p[0] in ctx["locals"]:
+            if len(p) == 1 and self.is_local(p[0], ctx):
                 return ("var", p[0], False)
             if p[-1] in self.fns:
                 return ("fn", p[-1])
@@ -735,10 +777,13 @@ class Gen:
             if c[0] == "fn":
                 return "(ECall %d None)" % self.instance(c[1], ())
             if c[0] == "closure":
-                cctx = {"fn": fn, "consts": {}, "locals": ctx["locals"], "name": ctx["name"] + "<closure>"}
+                if c[1] in self.closure_env:            # a capturing closure: evaluated where it was written
+                    return self.block(self.closures[c[1]], self.closure_env[c[1]], tail=True)
+                cctx = {"fn": fn, "consts": {}, "locals": ctx["locals"], "name": ctx["name"] + "<closure>",
+                        "prefix": ctx.get("prefix", "")}
                 return self.block(self.closures[c[1]], cctx, tail=True)
             self.fail(fn, e[3], "parameter %s is not callable" % name)
-        cargs, var = [], None
+        cargs, var, capturing = [], None, False
         for a in rest:
             c = self.const_arg(a, ctx)
             if c[0] == "var":
@@ -746,11 +791,26 @@ class Gen:
                     self.fail(fn, e[3], "more than one run-time argument")
                 var = c
             else:
-                if c[0] == "closure":
-                    key = repr(c[1])
-                    self.closures[key] = c[1]
+                if c[0] == "closure" and not isinstance(c[1], str):
+                    body = c[1]
+                    if self.captures(body, ctx):
+                        self.ncap = getattr(self, "ncap", 0) + 1
+                        key = "cap%d:%s" % (self.ncap, repr(body))
+                        self.closure_env[key] = ctx
+                        capturing = True
+                    else:
+                        key = repr(body)
+                    self.closures[key] = body
                     c = ("closure", key)
+                elif c[0] == "closure" and c[1] in self.closure_env:
+                    capturing = True
                 cargs.append(c)
+        if capturing:
+            if var is not None:
+                self.fail(fn, e[3], "capturing closure together with a run-time argument")
+            if name not in self.fns:
+                raise TranslateError("call to unknown function %s" % name)
+            return self.inline_call(name, tuple(cargs), ctx, e[3])
         idx = self.instance(name, tuple(cargs))
         if var is None:
             return "(ECall %d None)" % idx
